@@ -4,7 +4,7 @@ import Mathlib.Tactic.SplitIfs
 /-! # Tie: the reading cmeta / RDF functions of model.py (generated from the source) = the hand model's lookups
     (`Model.hasCmetaId`, `Model.getVariableByCmetaId` of State.lean; `Model.byRdf`, `Model.byTerm` of Cmeta.lean) -/
 
-namespace Cellml.Tie
+namespace Cellml.Tie.PCmeta
 open Model Cellml.Gen
 
 /-- a lookup of the hand model (`none` = KeyError) as a python result -/
@@ -203,4 +203,4 @@ theorem getVariableByOntologyTerm_tie (a : AState) (term : RNode) :
     | [v] => simp [errClass, bind, Except.bind, listGet]
     | _ :: _ :: _ => simp [errClass, lErrCls, bind, Except.bind, throw, throwThe, MonadExceptOf.throw]
 
-end Cellml.Tie
+end Cellml.Tie.PCmeta
